@@ -339,7 +339,7 @@ func c10Judge(e *c10E, r *Result) (verdict string, detail map[string]interface{}
 	bad := func(format string, a ...interface{}) string { return fmt.Sprintf(format, a...) }
 
 	isUpdate := map[string]bool{"update1": true, "updcol1": true, "upd_map": true, "updcols_map": true, "upd_struct": true,
-		"updcols_struct": true, "upd_self": true, "save": true, "upd_dto": true}[path]
+		"updcols_struct": true, "upd_self": true, "save": true, "upd_dto": true, "upd_struct_nomodel": true, "updcols_struct_nomodel": true}[path]
 	// Updates(dto) with a DIFFERENT struct type: a column the MODEL's tag denies never changes; a column only the DTO's
 	// tag denies is latitude (the text speaks of "a field whose tag denies"; both fields carry a tag)
 	dtoDeny := map[string]bool{}
@@ -356,7 +356,7 @@ func c10Judge(e *c10E, r *Result) (verdict string, detail map[string]interface{}
 		}
 		self := path == "upd_self" || path == "save"
 		modelPK := 0
-		if self {
+		if self || strings.HasSuffix(path, "_nomodel") { // the key travels in the written value itself
 			modelPK = c10Int(c.Rows[0][pk.F.Name])
 		} else {
 			modelPK = c10Int(c.Model[pk.F.Name])
@@ -547,7 +547,7 @@ func c10Judge(e *c10E, r *Result) (verdict string, detail map[string]interface{}
 func c10PredictUpdate(in c10Info, c *c10Case, path string, self bool, was string) (inSet bool, accept []string, skip bool) {
 	restricting := len(c.Selects) > 0 && !c10HasStar(c.Selects)
 	selAll := c10HasStar(c.Selects)
-	hooks := !(path == "updcol1" || path == "updcols_map" || path == "updcols_struct" || path == "updcol_expr")
+	hooks := !(path == "updcol1" || path == "updcols_map" || path == "updcols_struct" || path == "updcol_expr" || path == "updcols_struct_nomodel")
 	isMap := strings.HasSuffix(path, "_map") || path == "update1" || path == "updcol1" || path == "updcol_expr" || path == "upd_expr"
 	omitted := c10Names(in, c.Omits)
 	selected := selAll || c10Names(in, c.Selects)
@@ -611,7 +611,8 @@ func containsInt(l []int, x int) bool {
 }
 
 var c10EPaths = []string{"update1", "updcol1", "upd_map", "upd_map", "updcols_map", "upd_struct", "upd_struct", "upd_dto", "updcols_struct", "upd_self",
-	"save", "save", "create", "create_slice", "create_batches", "create_map", "create_maps", "upsert_all", "upsert_slice", "upsert_cols", "save_slice"}
+	"save", "save", "create", "create_slice", "create_batches", "create_map", "create_maps", "upsert_all", "upsert_slice", "upsert_cols", "save_slice",
+	"upd_struct_nomodel", "updcols_struct_nomodel"}
 
 func genC10E(rng *rand.Rand, r *Result) *c10E {
 	db := c10ParseDB()
@@ -687,7 +688,7 @@ func genC10E(rng *rand.Rand, r *Result) *c10E {
 			c.Model[s.Fields[0].Name] = mpk
 		}
 		rowpk := 0
-		if c.Path == "upd_self" || c.Path == "save" {
+		if c.Path == "upd_self" || c.Path == "save" || (strings.HasSuffix(c.Path, "_nomodel") && rng.Intn(4) > 0) {
 			rowpk = 1 + rng.Intn(5)
 			if e.CondIDs != nil && rng.Intn(10) > 0 && !containsInt(e.CondIDs, rowpk) {
 				e.CondIDs = append(e.CondIDs, rowpk)
